@@ -304,6 +304,28 @@ func (e editor) list(from *Selection, to *Selection, m *meta.List, new bool, str
 			}
 		}
 		toRequest.New = true
+		if toChild == nil && strategy != editUpdate {
+			// the item is created from its key before the key leafs are written: have the
+			// key values checked before there is an item
+			for i, keyMeta := range m.KeyMeta() {
+				if i >= len(key) {
+					break
+				}
+				keyRequest := FieldRequest{
+					Request: Request{
+						Selection: to,
+						Path:      &Path{Parent: to.Path, Meta: keyMeta},
+						Base:      e.basePath,
+					},
+					Meta:  keyMeta,
+					Write: true,
+				}
+				keyHnd := ValueHandle{Val: key[i]}
+				if _, err := to.Constraints.CheckFieldPreConstraints(&keyRequest, &keyHnd); err != nil {
+					return err
+				}
+			}
+		}
 		switch strategy {
 		case editUpdate:
 			if toChild == nil {
